@@ -25,6 +25,26 @@ PROF = sc.make_prof(fams=["lin", "sinlin", "rosen", "hashed", "hashed", "boxdoma
 @st.composite
 def cases(draw):
     c = draw(sc.scenarios(PROF))
+    if draw(st.integers(0, 15)) == 0 and c["fam"] in ("lin", "sinlin") and c["n"] >= 2 and not c.get("proj"):
+        # convergence onto an intersection of sets: 2-3 sets around the start, the unconstrained minimiser far outside them, a
+        # budget that lets the run settle on the boundary (rounding-level model values, many rejected trial points)
+        n = c["n"]
+        draw(sc.attach_projections(c, maxfun=60))
+        while len(c["proj"]) < 2:
+            c["proj"] = c["proj"] + draw(sc.draw_sets(n, [float(v) for v in c["x0"]] if "proj-x0:z" in c["tags"] else
+                                                      [float(np.mean([sp.get("c", c["x0"])[i] if sp["kind"] == "ball" else c["x0"][i] for sp in c["proj"]])) for i in range(n)],
+                                                      1.0, kinds=("half", "ball"), nmin=1, nmax=1))
+        d = np.array([draw(sc.g8) for _ in range(n)])
+        if not np.any(d):
+            d[0] = 1.0
+        xs = np.array(c["x0"], dtype=float) + 8.0 * max(1.0, float(np.max(np.abs(c["x0"])))) * d / np.linalg.norm(d)
+        A = np.array(c["A"], dtype=float).reshape(c["m"], n)
+        c["b"] = A.dot(xs).tolist()
+        c["maxfun"] = 60
+        c["rhoend"] = c["rhobeg"] * 1e-6
+        c["up"] = {k: v for k, v in c["up"].items() if k.startswith("logging.")}
+        c["tags"] = sorted(set(c["tags"] + ["proj-converge"]))
+        return c
     if draw(st.integers(0, 5)) == 0 and c["fam"] != "boxdomain" and not c.get("proj"):
         # the objective is undefined (NaN) beyond a hyperplane 0.5 .. 10 rhobeg away from the (projected) starting point
         n = c["n"]
